@@ -162,15 +162,18 @@ func configs01(tier string) []xplore.Config {
 	}
 	// a second client subscribed below the first one's path goes away while the
 	// target keeps streaming: the remaining client must still get everything
-	whole := subSpec{target: "t1", paths: []string{"*"}, mode: stream}
+	// (the first client sits at an ANCESTOR node of the second one's path: the
+	// whole target as the empty path, as `gnmi_cli -q /` asks for it, or a/)
 	leaf := subSpec{target: "t1", paths: []string{"a/b"}, mode: stream}
-	for _, sc := range [][]wop{{{"upd", "a/b"}}, {{"upd", "a/b"}, {"del", "a/b"}}, {{"upd", "a/c"}, {"upd", "a/b"}}} {
-		for _, rev := range []bool{false, true} {
-			name := fmt.Sprintf("relay W(t1)=%s | %s + %s, the second client leaves", scriptName(sc), whole, leaf)
-			if rev {
-				name += " [newest-first]"
+	for _, anc := range []subSpec{{target: "t1", paths: []string{""}, mode: stream}, {target: "t1", paths: []string{"a"}, mode: stream}} {
+		for _, sc := range [][]wop{{{"upd", "a/b"}}, {{"upd", "a/b"}, {"del", "a/b"}}, {{"upd", "a/c"}, {"upd", "a/b"}}} {
+			for _, rev := range []bool{false, true} {
+				name := fmt.Sprintf("relay W(t1)=%s | %s + %s, the second client leaves", scriptName(sc), anc, leaf)
+				if rev {
+					name += " [newest-first]"
+				}
+				out = append(out, xplore.Config{Name: name, Bound: bound, Data: cfg04{writers: []writer{{"t1", sc}}, subs: []subSpec{anc, leaf}, cancelSub: 2, reverse: rev}})
 			}
-			out = append(out, xplore.Config{Name: name, Bound: bound, Data: cfg04{writers: []writer{{"t1", sc}}, subs: []subSpec{whole, leaf}, cancelSub: 2, reverse: rev}})
 		}
 	}
 	return out
